@@ -656,7 +656,9 @@ package ro
 //@   props C15 C05
 //@   alias inner=source.SubscribeWithContext()
 //@   track source.SubscribeWithContext source.SubscribeWithContext().* subscriptions.*
-//@   on next@sources(ctx, source) : emits source.SubscribeWithContext(ctx, _), subscriptions.AddUnsubscribable(_), inner.Wait()
+//@   note a source handed over after the output ended (an earlier source failed, or the downstream left) is not subscribed at all
+//@   on next@sources(ctx, source) when !res(subscriptions.IsClosed) : emits subscriptions.IsClosed(), source.SubscribeWithContext(ctx, _), subscriptions.AddUnsubscribable(_), inner.Wait()
+//@   on next@sources(ctx, source) when res(subscriptions.IsClosed) : emits subscriptions.IsClosed()
 //@   on error@sources(ctx, err) : emits subscriptions.Unsubscribe(), Error(ctx, err)
 //@   on next@source(ctx, value) : emits Next(ctx, value)
 //@   on error@source(ctx, err) : emits subscriptions.Unsubscribe(), Error(ctx, err)
